@@ -12,8 +12,8 @@ variable {ν : Type} [NumOps ν]
 
 theorem sim_arith_basic {ω : Addr → Option (SVal ν)} {d n : Nat} (ih : IH ω d n) (ln ty : Nat) (l r : Expr)
     (hty : ty = ArithAdd ∨ ty = ArithSub ∨ ty = ArithMul ∨ ty = ArithDiv ∨ ty = ArithIntDiv) (hl : PureExpr l) (hr : PureExpr r)
-    (s : VM ν) (σ : SState ν) (henv : EnvRel ω d s σ) :
-    Sim d (Reads ω (n + 1 + d)) s σ (evalExpr (n+1) (.arith ln ty l r)) (evalE (n+1) (.arith ln ty l r)) := by
+    (s : VM ν) (σ : SState ν) (henv : EnvRel ω d s σ) {k : Nat} (hk : 0 < k) :
+    Sim d (Reads ω k) s σ (evalExpr (n+1) (.arith ln ty l r)) (evalE (n+1) (.arith ln ty l r)) := by
   simp only [evalExpr, evalE]
   rcases hty with rfl | rfl | rfl | rfl | rfl <;>
   · simp only [ArithAdd, ArithSub, ArithMul, ArithDiv, ArithIntDiv, ArithModulo,
@@ -40,8 +40,8 @@ theorem sim_arith_basic {ω : Addr → Option (SVal ν)} {d n : Nat} (ih : IH ω
 
 theorem sim_arith_mod {ω : Addr → Option (SVal ν)} {d n : Nat} (ih : IH ω d n) (ln : Nat) (l r : Expr)
     (hl : PureExpr l) (hr : PureExpr r)
-    (s : VM ν) (σ : SState ν) (henv : EnvRel ω d s σ) :
-    Sim d (Reads ω (n + 1 + d)) s σ (evalExpr (n+1) (.arith ln ArithModulo l r)) (evalE (n+1) (.arith ln ArithModulo l r)) := by
+    (s : VM ν) (σ : SState ν) (henv : EnvRel ω d s σ) {k : Nat} (hk : 0 < k) :
+    Sim d (Reads ω k) s σ (evalExpr (n+1) (.arith ln ArithModulo l r)) (evalE (n+1) (.arith ln ArithModulo l r)) := by
   simp only [evalExpr, evalE]
   simp only [ArithAdd, ArithSub, ArithMul, ArithDiv, ArithIntDiv, ArithModulo,
       Nat.reduceBEq, if_true, if_false, Bool.false_eq_true]
